@@ -38,17 +38,23 @@ def axes(tier, seed):
                 bad_rows=["off_left", "off_right", "off_top", "off_bottom", "on_nan"], psf_columns=["present", "absent"])
 
 
+PHASES_T = [(a, b) for a in (0.0, 0.3, 0.5, 0.8) for b in (0.0, 0.3, 0.5, 0.8)]
+
+
 def cases(tier, seed):
-    for si, ph, stage in itertools.product(range(len(SIZES)), range(len(PHASES)), [1, 2, 3]):
+    nph = len(PHASES) if tier == "quick" else len(PHASES_T)
+    for si, ph, stage in itertools.product(range(len(SIZES)), range(nph), [1, 2, 3]):
         yield "single", dict(size=si, phase=ph, stage=stage)
     # sources close to every edge and corner of the image (cut-outs clipped by the image boundary)
     for edge in range(len(EDGE_POS)):
-        for si in (0, 3, 7):
+        for si in ((0, 3, 7) if tier == "quick" else range(len(SIZES))):
             for stage in (1, 2, 3):
                 yield "edges", dict(edge=edge, size=si, stage=stage)
     for stage in (1, 2, 3):
         for regroup in (True, False):
             yield "permutations", dict(stage=stage, regroup=regroup)
+            if tier != "quick":
+                yield "permutations", dict(stage=stage, regroup=regroup, five=True)
     for stage in (1, 2, 3):
         yield "badrows", dict(stage=stage)
     for stage in (1, 3):
@@ -134,7 +140,7 @@ def ev_single(case, ctx):
     d = os.environ["VERIF_SCRATCH"]
     hdr = hdr_()
     a = SIZES[case["size"]]
-    ph = PHASES[case["phase"]]
+    ph = (PHASES if ctx.tier == "quick" else PHASES_T)[case["phase"]]
     dj = core.seed_shift(ctx.seed, 50, 0.15)
     srcs = [skygauss.source_at_pixel(hdr, 40.0 + ph[0] + dj, 44.0 + ph[1], 1.0, a, 3.2, 35.0),
             skygauss.source_at_pixel(hdr, 70.0 + ph[1], 20.0 + ph[0] + dj, -0.6, a * 0.9, 3.4, -50.0)]
@@ -208,14 +214,17 @@ def ev_permutations(case, ctx):
     d = os.environ["VERIF_SCRATCH"]
     hdr = hdr_()
     srcs = base_catalogue(hdr)
+    if case.get("five"):
+        srcs = srcs + [skygauss.source_at_pixel(hdr, 30.5, 80.2, -0.8, 7.0, 3.4, 80.0)]
     cat = [to_component(s, hdr, k) for k, s in enumerate(srcs)]
     truth = {c.uuid: s for c, s in zip(cat, srcs)}
     f = os.path.join(d, "c05p.fits")
     scenes.write_image(f, hdr, skygauss.render(hdr, SHAPE, srcs))
     base = None
-    for perm in itertools.permutations(range(4)):
+    for perm in itertools.permutations(range(len(cat))):
         ctx.count("permutation")
         sig = "perm:%s,stage=%d,regroup=%s" % ("".join(map(str, perm)), case["stage"], case["regroup"])
+        ctx.outcome("perm_n=%d" % len(cat))
         ctx.nontrivial(sig)
         try:
             out = run(f, [cat[i] for i in perm], stage=case["stage"], doregroup=case["regroup"])
